@@ -86,6 +86,17 @@ theorem ppTokens_trimStart (l : List PTok) : ppTokens (trimStart l) = ppTokens l
       rw [ih, ppTokens_cons_ws t r (blank_isWhitespace _ hb)]
     · rfl
 
+theorem ppTokens_trimStartAll (l : List PTok) : ppTokens (trimStartAll l) = ppTokens l := by
+  induction l with
+  | nil => rfl
+  | cons t r ih =>
+    unfold trimStartAll at ih ⊢
+    rw [List.dropWhile_cons]
+    split
+    · rename_i hb
+      rw [ih, ppTokens_cons_ws t r hb]
+    · rfl
+
 theorem ppTokens_reverse (l : List PTok) : ppTokens l.reverse = (ppTokens l).reverse := by
   simp [ppTokens, List.filter_reverse]
 
@@ -616,32 +627,35 @@ theorem exists_list {α β : Type} (l : List α) (P : Nat → α → β → Prop
 
 theorem readArgs_fn (m : Macro) (remaining rest : List PTok) (args : List (List PTok)) (hf : m.isFunction = true)
     (h : readArgs m remaining = .ok (rest, args)) :
-    ∃ b tail, trimStart remaining = ⟨.lparen, b⟩ :: tail ∧ scanArgs tail [] [] 0 = .ok (rest, args) ∧
-      (if m.numParams = 0 then args = [[]] else args.length = m.numParams) := by
+    ∃ b tail, trimStartAll remaining = ⟨.lparen, b⟩ :: tail ∧ scanArgs tail [] [] 0 = .ok (rest, args) ∧
+      (if m.numParams = 0 then ∃ a, args = [a] ∧ ppTokens a = [] else args.length = m.numParams) := by
+  have hs := RsslVerif.Lemmas.MacroTerm.readArgs_ok_function m remaining rest args hf h
   unfold readArgs at h
-  simp only [hf, if_true] at h
-  cases hs : splitArgs m.name remaining with
-  | error e => simp [hs] at h
-  | ok ra =>
-    obtain ⟨r1, a1⟩ := ra
-    simp only [hs] at h
-    unfold splitArgs at hs
-    split at hs
-    · rename_i b tail htrim
-      refine ⟨b, tail, htrim, ?_⟩
+  simp only [hf, if_true, hs] at h
+  unfold splitArgs at hs
+  split at hs
+  · rename_i b tail htrim
+    refine ⟨b, tail, htrim, hs, ?_⟩
+    split at h
+    · rename_i hn
+      simp only [hn, if_true]
       split at h
-      · rename_i hn
+      · rename_i a
         split at h
+        · rename_i hemp
+          refine ⟨a, rfl, ?_⟩
+          rw [← ppTokens_trimStartAll a]
+          simp only [List.isEmpty_iff] at hemp
+          rw [hemp]; rfl
         · cases h
-          exact ⟨hs, by simp [hn]⟩
-        · cases h
-      · rename_i hn
-        split at h
-        · cases h
-        · rename_i hlen
-          cases h
-          exact ⟨hs, by simpa [hn] using hlen⟩
-    · cases hs
+      · cases h
+    · rename_i hn
+      simp only [hn, if_false]
+      split at h
+      · cases h
+      · rename_i hlen
+        simpa using hlen
+  · cases hs
 
 theorem wf_disable {env : List Entry} {mi : Nat} (h : ∀ e ∈ env, WFMacro e.m) : ∀ e ∈ disable env mi, WFMacro e.m := by
   intro e he
@@ -812,11 +826,12 @@ theorem not_painted {env : List Entry} {n : String} {mi : Nat} {e : Entry} (hsel
 
 
 theorem fixArgs_eq (np : Nat) (largs : List (List HTok)) (args : List (List PTok)) (hrel : ArgsRel largs args)
-    (har : if np = 0 then args = [[]] else args.length = np) :
+    (har : if np = 0 then ∃ a, args = [a] ∧ ppTokens a = [] else args.length = np) :
     fixArgs (paramNames np) largs = largs.take np ∧ (largs.take np).length = np := by
   by_cases hnp : np = 0
   · simp only [hnp, if_true] at har
     subst hnp
+    obtain ⟨a0, har, ha0⟩ := har
     have hlen : largs.length = 1 := by rw [hrel.1, har]; rfl
     have : largs = [[]] := by
       cases largs with
@@ -825,8 +840,8 @@ theorem fixArgs_eq (np : Nat) (largs : List (List HTok)) (args : List (List PTok
         cases r with
         | cons _ _ => simp at hlen
         | nil =>
-          have := hrel.2 0 la [] (by simp) (by rw [har]; rfl)
-          simp only [ppTokens_nil, List.map_eq_nil_iff] at this
+          have := hrel.2 0 la a0 (by simp) (by rw [har]; rfl)
+          simp only [ha0, List.map_eq_nil_iff] at this
           rw [this]
     subst this
     simp [fixArgs, paramNames]
@@ -953,7 +968,7 @@ theorem tame_spec {env : List Entry} {l out : List PTok} (h : Tame env l out) :
         -- function-like
         obtain ⟨bb, tail, htrim, hscan, har⟩ := readArgs_fn e.m rest rest' args hfn hra
         have hls' : ls'.map (·.tok) = Tok.lparen :: ppTokens tail := by
-          rw [htoks', ← ppTokens_trimStart rest, htrim, ppTokens_cons _ tail (by rfl)]
+          rw [htoks', ← ppTokens_trimStartAll rest, htrim, ppTokens_cons _ tail (by rfl)]
         cases ls' with
         | nil => simp at hls'
         | cons lp lts =>
